@@ -17,9 +17,11 @@ import time
 
 VERIF = os.path.dirname(os.path.dirname(os.path.abspath(__file__)))
 REPO = os.environ.get("VERIF_REPO", "/repo")
-BUILD_ROOT = os.path.join(VERIF, "build")
-OUT_ROOT = os.path.join(VERIF, "out")
-EVIDENCE_DIR = os.path.join(VERIF, "evidence")
+# the three directories can be redirected (used when the checks are pointed at a scratch copy of the
+# repository to validate the monitors against seeded defects, so that /verif/evidence is not touched)
+BUILD_ROOT = os.environ.get("VERIF_BUILD_DIR", os.path.join(VERIF, "build"))
+OUT_ROOT = os.environ.get("VERIF_OUT_DIR", os.path.join(VERIF, "out"))
+EVIDENCE_DIR = os.environ.get("VERIF_EVIDENCE_DIR", os.path.join(VERIF, "evidence"))
 HARNESS = os.path.join(VERIF, "harness")
 FINDINGS = os.path.join(VERIF, "known_findings.json")
 NCPU = max(1, min(16, os.cpu_count() or 1))
